@@ -37,7 +37,7 @@ def run(tier, seed):
     # the two schedules TLC found as counterexamples for the unrepaired purge rule are always replayed first
     core = [
         [{"op": "Subscribe", "s": 1}, {"op": "Read", "s": 1, "p": 1, "d": True}, {"op": "Change", "p": 1}, {"op": "Read", "s": 1, "p": 2, "d": True},
-         {"op": "Read", "s": 1, "p": 3, "d": True}, {"op": "PassStart"}, {"op": "PassEnd"}, {"op": "End", "s": 1, "r": "ok"}],
+         {"op": "Read", "s": 1, "p": 3, "d": True}, {"op": "PassStart"}, {"op": "PassEnd"}, {"op": "ReadEv", "s": 1}, {"op": "End", "s": 1, "r": "ok"}],
         [{"op": "Subscribe", "s": 1}, {"op": "Read", "s": 1, "p": 1, "d": True}, {"op": "Read", "s": 1, "p": 2, "d": True}, {"op": "Read", "s": 1, "p": 3, "d": True},
          {"op": "End", "s": 1, "r": "ok"}, {"op": "Subscribe", "s": 2}, {"op": "Read", "s": 2, "p": 1, "d": True}, {"op": "Change", "p": 1}, {"op": "Tick"},
          {"op": "PassStart"}, {"op": "Begin", "s": 1}, {"op": "Read", "s": 1, "p": 1, "d": True}, {"op": "Read", "s": 1, "p": 2, "d": False},
